@@ -16,6 +16,9 @@ final `end …` line):
 * `hashview <operand>`           → view through which the operand's view type hashes
 * `witnesses`                    → `D7 eq <hexA> <hexB> ; D7 hash <hex> ; D8 hash <hex>`
 * `rows`                         → per row of `Gen.CmpImpls.table`: `<file:line> <Trait<rhs> for lhs> ok|BAD expected=<view> got=<view> [why=<failed checks>]`
+* `rows_c12`                     → falsifying rows of the C12 table theorems (`impl_view_ok`,
+                                   `borrow_coherent_partial`) with file:line, ` ; `-separated, or `none`
+* `probe_rows`                   → machine-readable listing of every row (see `probeRowLines`), then `end rows=<n>`
 * `borrows`                      → per row of `Gen.CmpImpls.borrows`: `<file:line> Borrow<target> for <owner> ok|BAD|KNOWN …`
 
 `<view>` = `bytes|str|osstr|path`; hex is lower-case, `-` for empty;
@@ -96,6 +99,51 @@ def operandName : Operand → String
   | .hip h => hipName h
   | .std t r => (if r then "&" else "") ++ (reprStr t).replace "HipVerif.Views.StdTy." ""
 
+/-- Operand in the syntax `parseOperand` reads (`hip:str`, `std:vec:ref`). -/
+def operandKey : Operand → String
+  | .hip .byt => "hip:byt" | .hip .str => "hip:str" | .hip .os => "hip:os" | .hip .path => "hip:path"
+  | .std t r => "std:" ++ (reprStr t).replace "HipVerif.Views.StdTy." "" ++ (if r then ":ref" else "")
+
+def targetKey : Target → String
+  | .slice => "slice" | .str => "str" | .osStr => "osStr" | .path => "path" | .bstr => "bstr"
+
+def featKey (f : String) : String := if f.isEmpty then "-" else f
+
+/-- `probe_rows`: one machine-readable line per generated impl, for the generic runtime probes of
+    `cmpdrive --mode probe`:
+    `cmp <loc> <Trait> <lhs operand> <rhs operand> <expected view|none> <ok|BAD> <feature|->` and
+    `borrow <loc> <owner operand> <target> <ok|KNOWN|BAD> <owner eq view> <owner hash view> <feature|->`. -/
+def probeRowLines : List String :=
+  (genEnv.table.map fun r =>
+    s!"cmp {r.loc} {traitName r.trait} {operandKey r.lhs} {operandKey r.rhs} " ++
+    s!"{viewOptName (expectedView r)} {if rowOk genEnv r then "ok" else "BAD"} {featKey r.feature}") ++
+  (HipVerif.Gen.CmpImpls.borrows.map fun b =>
+    let status := if borrowOk genEnv b then "ok" else if b.isKnownFinding then "KNOWN" else "BAD"
+    s!"borrow {b.loc} {operandKey (.hip b.owner)} {targetKey b.target} {status} " ++
+    s!"{viewOptName (genEnv.ownerView .partialEq b.owner)} {viewOptName (genEnv.ownerView .hash b.owner)} " ++
+    s!"{featKey b.feature}")
+
+/-- `rows_c12`: the generated rows that falsify a C12 table theorem, named by theorem, with
+    `file:line` (one line, ` ; `-separated, `none` when every row passes). Known findings are not
+    listed (they are excluded from `borrow_coherent_partial`). -/
+def rowsC12 : String :=
+  let bad :=
+    (genEnv.table.filterMap fun r =>
+      if rowOk genEnv r then none else
+        some (s!"impl_view_ok: {traitName r.trait}<{operandName r.rhs}> for {operandName r.lhs} " ++
+          s!"expected={viewOptName (expectedView r)} got={viewOptName (viewOf genEnv FUEL r)} " ++
+          s!"why={",".intercalate (rowDiag genEnv r)} @ {r.loc}")) ++
+    (HipVerif.Gen.CmpImpls.borrows.filterMap fun b =>
+      if borrowOk genEnv b || b.isKnownFinding then none else
+        some (s!"borrow_coherent_partial: Borrow<{targetName b.target}> for {hipName b.owner} " ++
+          s!"owner_eq={viewOptName (genEnv.ownerView .partialEq b.owner)} " ++
+          s!"owner_ord={viewOptName (genEnv.ownerView .ord b.owner)} " ++
+          s!"owner_hash={viewOptName (genEnv.ownerView .hash b.owner)} " ++
+          s!"target_cmp={viewOptName (stdView b.target b.target)} target_hash={(hashViewOf b.target).name} @ {b.loc}")) ++
+    (if (HipVerif.Gen.CmpImpls.borrows.filter (·.isKnownFinding)).length = 2 then [] else
+      [s!"borrow_known_findings_exact: {(HipVerif.Gen.CmpImpls.borrows.filter (·.isKnownFinding)).length} known-finding rows (expected 2)"])
+  if bad.isEmpty then "none" else " ; ".intercalate bad
+
 def rowLine (r : CmpRow) : String :=
   let ok := rowOk genEnv r
   s!"{r.loc} {traitName r.trait}<{operandName r.rhs}> for {operandName r.lhs} " ++
@@ -150,6 +198,8 @@ def answer (ws : List String) : List String :=
     | _ => ["error parse"]
   | ["witnesses"] =>
     [s!"D7 eq {hex d7EqWitness.1} {hex d7EqWitness.2} ; D7 hash {hex d7HashWitness} ; D8 hash {hex d8HashWitness}"]
+  | ["rows_c12"] => [rowsC12]
+  | ["probe_rows"] => probeRowLines ++ [s!"end rows={probeRowLines.length}"]
   | ["rows"] =>
     let t := genEnv.table
     t.map rowLine ++ [s!"end rows={t.length} bad={(t.filter (!rowOk genEnv ·)).length}"]
